@@ -422,7 +422,7 @@ func cleanObserved(o interface{}) {
 	if !ok {
 		return
 	}
-	for _, k := range []string{"rc", "errtext", "t", "newids", "raced", "order", "deadlock", "faulted", "emitted", "tokAfter", "emittedNow", "overlap", "landed", "died"} {
+	for _, k := range []string{"rc", "errtext", "t", "newids", "raced", "order", "deadlock", "faulted", "emitted", "tokAfter", "emittedNow", "overlap", "landed", "died", "duringRan"} {
 		delete(m, k)
 	}
 	if in, ok := m["inner"]; ok {
@@ -430,6 +430,9 @@ func cleanObserved(o interface{}) {
 	}
 	if rc, ok := m["race"].(map[string]interface{}); ok {
 		cleanObserved(rc["inner"])
+	}
+	if du, ok := m["during"].(map[string]interface{}); ok {
+		cleanObserved(du["inner"])
 	}
 }
 
